@@ -822,7 +822,7 @@ impl<'a> ACtx<'a> {
 		honest: &BlockHeader,
 		pos: &str,
 		o: &Outcome,
-	) {
+	) -> bool {
 		let ver = honest.version.0;
 		let trace = chain.and_then(|c| accepted_trace(c, &mu.header));
 		let outcome_s = match o {
@@ -857,6 +857,7 @@ impl<'a> ACtx<'a> {
 					"delivering a mutated header panics instead of being rejected",
 					replay,
 				);
+				false
 			}
 			Outcome::Ok => {
 				drop(t);
@@ -874,6 +875,7 @@ impl<'a> ACtx<'a> {
 					),
 					replay,
 				);
+				true
 			}
 			Outcome::Err(v) => {
 				if let Some(tr) = trace {
@@ -890,6 +892,7 @@ impl<'a> ACtx<'a> {
 						"the entry point returned an error but the mutated header is in the chain",
 						replay,
 					);
+					true
 				} else {
 					*t.rejected
 						.entry((mu.field.to_string(), entry.name()))
@@ -901,6 +904,7 @@ impl<'a> ACtx<'a> {
 							.entry(format!("{}:{}:{}->{}", entry.name(), mu.field, mu.kind, v))
 							.or_insert(0) += 1;
 					}
+					false
 				}
 			}
 		}
@@ -1127,10 +1131,13 @@ fn part_a_chain(
 			.collect();
 
 		// -- 1. invalid mutants on receivers that know the ancestors only
+		let mut polluted: Vec<Entry> = vec![]; // receivers that took a mutant at this height
 		for mu in muts.iter().filter(|m| m.label == Label::Invalid) {
 			for (entry, chain) in [(Entry::Pbh, &r_pbh), (Entry::Sync1, &r_sync), (Entry::Pb, &r_pb)] {
 				let o = deliver(chain, entry, &mu.header, &honest_block);
-				cx.judge_invalid(entry, Some(chain), mu, &honest, "single", &o);
+				if cx.judge_invalid(entry, Some(chain), mu, &honest, "single", &o) {
+					polluted.push(entry);
+				}
 			}
 			// batch: honest prefix, the bad header at position k, sometimes an honest successor
 			let mut batch: Vec<BlockHeader> =
@@ -1160,7 +1167,9 @@ fn part_a_chain(
 			}
 			let pos = format!("{}of{}", k, batch.len());
 			let o = deliver_batch(&r_batch, &batch);
-			cx.judge_invalid(Entry::SyncBatch, Some(&r_batch), mu, &honest, "batch", &o);
+			if cx.judge_invalid(Entry::SyncBatch, Some(&r_batch), mu, &honest, "batch", &o) {
+				polluted.push(Entry::SyncBatch);
+			}
 			run.count(&format!("partA_batch_position_{}", pos), 1);
 			if let Some(c) = child {
 				run.count("partA_batch_bad_root_followed_by_perfect_child", 1);
@@ -1229,14 +1238,14 @@ fn part_a_chain(
 				.header_head()
 				.map(|t| t.last_block_h == honest.hash())
 				.unwrap_or(false);
-			if ok && !head_ok {
+			if ok && !head_ok && !polluted.contains(&entry) {
 				run.violation(
 					&format!("partA;entry={};era=v{};field=none;kind=honest;event=not_header_head", entry.name(), ver),
 					"honest header accepted but header_head did not advance to it",
 					json!({"part":"A","chain_idx":ci,"height":hgt}),
 				);
 			}
-			all_ok &= ok && head_ok;
+			all_ok &= ok;
 		}
 		if hgt % 4 == 0 || hgt == n_blocks as usize {
 			let batch: Vec<BlockHeader> =
